@@ -193,6 +193,24 @@ func genKeySet(r *rng, shape int, identOnly bool) (keys [][]byte, special [][]by
 			}
 			add(k)
 		}
+	case 6:
+		// keys of the boundary lengths around 64 bytes, sharing long prefixes (the dispersive position may lie far to the right)
+		n := 1 + r.intn(8)
+		base := []byte(longIdent(r))
+		for i := 0; i < n; i++ {
+			k := []byte(longIdent(r))
+			if r.chance(50) {
+				k = append([]byte{}, base[:r.intn(len(base)+1)]...)
+				k = append(k, randIdent(r, 1+r.intn(3))...)
+				if r.chance(50) {
+					l := longLens[r.intn(len(longLens))]
+					for len(k) < l {
+						k = append(k, base[0])
+					}
+				}
+			}
+			add(k)
+		}
 	default:
 		n := 1 + r.intn(3)
 		for i := 0; i < n; i++ {
@@ -200,6 +218,26 @@ func genKeySet(r *rng, shape int, identOnly bool) (keys [][]byte, special [][]by
 		}
 	}
 	return
+}
+
+// positions of a key that get the full probe treatment: all of a short key, a boundary sample of a long one
+func probePositions(r *rng, n int) []int {
+	if n <= 32 {
+		ps := make([]int, n)
+		for i := range ps {
+			ps[i] = i
+		}
+		return ps
+	}
+	seen := map[int]bool{}
+	var ps []int
+	for _, p := range []int{0, 1, 31, 62, 63, 64, 65, 127, 128, n - 2, n - 1, r.intn(n), r.intn(n)} {
+		if p >= 0 && p < n && !seen[p] {
+			seen[p] = true
+			ps = append(ps, p)
+		}
+	}
+	return ps
 }
 
 func genProbes(r *rng, keys [][]byte, extra [][]byte, capPerKey int) [][]byte {
@@ -244,14 +282,14 @@ func genProbes(r *rng, keys [][]byte, extra [][]byte, capPerKey int) [][]byte {
 			continue
 		}
 		k := keys[i]
-		for j := 0; j < len(k); j++ {
+		for _, j := range probePositions(r, len(k)) {
 			add(k[:j]) // proper prefixes
 		}
 		for _, c := range specialBytes {
 			add(append(append([]byte{}, k...), c))
 		}
 		add(append(append([]byte{}, k...), 'a'))
-		for j := 0; j < len(k); j++ {
+		for _, j := range probePositions(r, len(k)) {
 			subs := append([]byte{}, specialBytes...)
 			if hi[j] >= 0 && hi[j] < 255 {
 				subs = append(subs, byte(hi[j]+1))
@@ -434,7 +472,7 @@ func sweepIDs(found *toks, get func(id int) (int64, bool)) int {
 // ---- 1402: FieldNameMap ------------------------------------------------------------------------------
 
 func c14FieldNameMap(r *rng) {
-	shape := []int{0, 0, 1, 2, 2, 3, 3, 4, 5}[r.intn(9)]
+	shape := []int{0, 0, 1, 2, 2, 3, 3, 4, 5, 6, 6}[r.intn(11)]
 	keys, special := genKeySet(r, shape, false)
 	if r.chance(15) {
 		keys = append(keys, nil) // the empty key
@@ -479,7 +517,7 @@ func c14FieldNameMap(r *rng) {
 // ---- 1403: caching.TrieTree / caching.HashMap directly ---------------------------------------------------
 
 func c14Direct(r *rng) {
-	shape := []int{0, 1, 2, 3, 3, 4, 5}[r.intn(7)]
+	shape := []int{0, 1, 2, 3, 3, 4, 5, 6}[r.intn(8)]
 	keys, special := genKeySet(r, shape, false)
 	trie := r.bool()
 	if trie && r.chance(15) {
@@ -734,7 +772,7 @@ func nativeOOB(kind, pos int, keys [][]byte, probe []byte) bool {
 
 // wide struct of i32 fields whose keys (api.key aliases) come from a key set; parsed through the IDL front end
 func c14WideStruct(r *rng) {
-	shape := []int{0, 1, 2, 2, 4, 4, 4, 5}[r.intn(8)]
+	shape := []int{0, 1, 2, 2, 4, 4, 4, 5, 6, 6}[r.intn(10)]
 	keys, special := genKeySet(r, shape, true)
 	if len(keys) == 0 {
 		return
@@ -797,8 +835,10 @@ func genC14(r *rng, n int) {
 			c14FieldNameMap(r)
 		case x < 52:
 			c14Direct(r)
-		case x < 70:
+		case x < 68:
 			c14WideStruct(r)
+		case x < 70:
+			c14Inherit1408(r)
 		default:
 			c14IDL(r)
 		}
